@@ -15,13 +15,15 @@ import (
 func init() { register("C06", true, checkC06) }
 
 func checkC06(p *Prog, r *Report) {
-	r.Explain("HDR: every construction of a meta.ExifHeader takes ByteOrder from utils.BinaryOrder(x) and FirstIfdOffset from <that order>.Uint32(x[4:8]) — the payload's own TIFF header — in every container scanner. SIB: the three Exif entry points stored in ExifReader slots (DecodeTiff, DecodeJPEGIfd, DecodeIfd) initialise the same reader state (reset, image type, first-IFD offset, length, position) and start readIfd on NewIFD(h.ByteOrder, h.FirstIfd, ...). SWITCH: every decoding case of imagemeta.Decode funnels into one of these siblings. PNGWALK: every exit of the PNG chunk walk is under a failed read/seek or under chunkType == \"eXIf\" (no other chunk, before or after the image data, influences the result). Equality of decoded values across containers is a run-time fact and is not decided; C10/C11/C12 cover the hand-offs.")
+	r.Explain("HDR: every construction of a meta.ExifHeader takes ByteOrder from utils.BinaryOrder(x) and FirstIfdOffset from <that order>.Uint32(x[4:8]) — the payload's own TIFF header — in every container scanner. SIB: the three Exif entry points stored in ExifReader slots (DecodeTiff, DecodeJPEGIfd, DecodeIfd) initialise the same reader state (reset, image type, first-IFD offset, length, position) and start readIfd on NewIFD(h.ByteOrder, h.FirstIfd, ...). SWITCH: every decoding case of imagemeta.Decode funnels into one of these siblings. PAYSEEK: every Seek in package exif2 is relative to the current position, except the one that positions the stream at ExifHeader.TiffHeaderOffset (the payload decoder never computes absolute positions, which differ per container). PNGWALK: every exit of the PNG chunk walk is under a failed read/seek or under chunkType == \"eXIf\" (no other chunk, before or after the image data, influences the result). Equality of decoded values across containers is a run-time fact and is not decided; C10/C11/C12 cover the hand-offs.")
 	r.Trusted("the decoders are deterministic functions of the reader state these rules pin down")
 	ruleHDR(p, r, "")
 	ruleSIB(p, r)
 	ruleSwitch(p, r)
 	rulePngWalk(p, r)
 	r.Floor("PNGWALK", 1)
+	rulePaySeek(p, r)
+	r.Floor("PAYSEEK", 1)
 	r.Floor("HDR", 4)
 	r.Floor("SIB", 3)
 	r.Floor("SWITCH", 3)
@@ -503,4 +505,68 @@ func rulePngWalk(p *Prog, r *Report) {
 	} else {
 		r.OK("PNGWALK", key, p.posStr(f.Pos()), fmt.Sprintf("%d exits of the chunk loop, each under err != nil or chunkType == \"eXIf\"", n))
 	}
+}
+
+// ---- PAYSEEK: the payload decoder never addresses the stream absolutely ---------------------------------------
+
+// rulePaySeek: the Exif decoder (package exif2) gets a stream positioned by a container scanner; the same payload
+// sits at different absolute offsets in different containers. Every Seek in exif2 must therefore be relative to the
+// current position (whence == io.SeekCurrent), with one exception: positioning the stream at the header the scanner
+// reported (offset = ExifHeader.TiffHeaderOffset, whence == io.SeekStart).
+func rulePaySeek(p *Prog, r *Report) {
+	sp := p.SSAPkg("exif2")
+	if sp == nil {
+		r.Undecided("PAYSEEK", "exif2 | seeks", "-", "package not loaded")
+		return
+	}
+	n := 0
+	for _, f := range pkgFns(sp, p) {
+		eachCall(f, func(site ssa.CallInstruction) {
+			c := site.Common()
+			name := ""
+			if c.IsInvoke() {
+				name = c.Method.Name()
+			} else if sc := c.StaticCallee(); sc != nil && sc.Signature.Recv() != nil {
+				name = sc.Name()
+			}
+			if name != "Seek" {
+				return
+			}
+			args := c.Args
+			if !c.IsInvoke() {
+				args = args[1:]
+			}
+			if len(args) != 2 {
+				return
+			}
+			n++
+			key := fmt.Sprintf("%s | Seek(%s, %s)", fnName(f), shortVal(args[0]), shortVal(args[1]))
+			at := p.posStr(instrPos(site))
+			wh, okW := constInt(args[1])
+			switch {
+			case okW && wh == 1:
+				r.OK("PAYSEEK", key, at, "relative to the current position")
+			case okW && wh == 0:
+				// offset must be exactly <header>.TiffHeaderOffset
+				v := stripConv(args[0])
+				okHdr := false
+				switch x := v.(type) {
+				case *ssa.Field:
+					okHdr = fieldNameV(x.X.Type(), x.Field) == "TiffHeaderOffset" && strings.HasSuffix(x.X.Type().String(), "meta.ExifHeader")
+				case *ssa.UnOp:
+					if fa, ok := x.X.(*ssa.FieldAddr); ok && x.Op == token.MUL {
+						okHdr = fieldName(fa.X.Type(), fa.Field) == "TiffHeaderOffset" && strings.HasSuffix(derefType(fa.X.Type()).String(), "meta.ExifHeader")
+					}
+				}
+				if okHdr {
+					r.OK("PAYSEEK", key, at, "positions the stream at the header the container scanner reported")
+				} else {
+					r.Bad("PAYSEEK", key, at, "absolute seek to a position computed inside the payload decoder: the payload's absolute offset differs per container (TIFF 0, PNG inside the eXIf chunk, …)")
+				}
+			default:
+				r.Bad("PAYSEEK", key, at, "seek that is neither relative nor the initial positioning at the reported header")
+			}
+		})
+	}
+	r.Extra("payseek_sites", n)
 }
